@@ -501,6 +501,19 @@ theorem roll64_is_first_accepted_word (seed : UInt64) (k n : Nat) (hn : 0 < n) (
   rw [Nat.zero_add] at hs
   exact ⟨i, v, hi, hrej, hv, fun fuel hf => Rng64.roll_first n seed v i _ k hs hrej hv fuel (by omega)⟩
 
+/-- the states the termination theorems quantify over are closed under the API: `Init(seed)` puts a Mersenne generator of any
+    history on the stream of `seed` at position 0; a raw draw / `esl_random`, a deal, a roll and a positive uniform leave it on that
+    stream, further on -/
+theorem on_stream_closed (r : Rng) (seed : UInt32) (k : Nat) (h : r.OnStream seed k) :
+    (r.next).2.OnStream seed (k + 1) ∧ (∀ m n, ∃ k', k ≤ k' ∧ (r.deal m n).2.OnStream seed k') ∧
+    (∀ n fuel v r', r.roll n fuel = some (v, r') → ∃ k', k < k' ∧ r'.OnStream seed k') ∧
+    (∀ fuel x r', r.uniformPositive fuel = some (x, r') → ∃ k', k < k' ∧ r'.OnStream seed k') ∧
+    (∀ seed', (r.initWith seed').OnStream seed' 0) :=
+  ⟨Rng.onStream_next r seed k h, fun m n => Rng.onStream_deal seed r k h m n,
+   fun n fuel v r' hr => let ⟨k', a, _, c⟩ := Rng.onStream_roll seed n fuel r k v r' h hr; ⟨k', a, c⟩,
+   fun fuel x r' hr => let ⟨k', a, _, c⟩ := Rng.onStream_uniformPositive seed fuel r k x r' h hr; ⟨k', a, c⟩,
+   fun seed' => Rng.onStream_initWith r h.1 seed'⟩
+
 /-- `esl_rnd_Roll` on the legacy LCG, every state: within `2^31 + 1` draws -/
 theorem roll_terminates_fast (r : Rng) (hk : r.kind = .fast) (n : Nat) (hn : 0 < n) (hn' : n < 2 ^ 32) (fuel : Nat)
     (hf : 2 ^ 31 + 1 ≤ fuel) : ∃ v r', r.roll n fuel = some (v, r') ∧ v < n := by
@@ -571,6 +584,8 @@ theorem gamma_integer_dirichlet_total {F : Type} [SOps F] (r0 : Rng) (hk : r0.ki
     table IS a fixed point of the refill (it is only unreachable), so no bound can hold for an arbitrary table content -/
 example : (0 : Nat) < 6 ∧ 6 < 2 ^ 32 ∧ (42 : UInt32) ≠ 0 ∧ (19999 : Nat) ≤ 1000000 := by decide
 example : twist32 0 0 0 = 0 ∧ temper32 0 = 0 := by decide
+example : (Rng.create .mersenne 42).OnStream 42 0 := Rng.onStream_initWith _ rfl 42
+example : (Rng64.create 42).OnStream 42 0 := Rng64.onStream_create 42
 /-- the `gamma_integer` test holds of `a = 1` (the `alpha = NULL` case of Dirichlet) over `ℝ` -/
 example : (SOps.beq (1 : ℝ) (SOps.floor (1 : ℝ)) && SOps.lt (1 : ℝ) (SOps.ofNat 12)) = true := by
   simp [SOps.beq, SOps.floor, SOps.lt, SOps.ofNat]
